@@ -1950,3 +1950,101 @@ Section Theorems.
     exists l0. auto.
   Qed.
 End Theorems.
+
+(* ------------------------------------------------------------------ *)
+(** * Histories: class-level defaults stay isolated *)
+(* The run of a history of operations (the same bookkeeping as
+   Corr/InstCorr.trace: callback counter reset, failure point set, the result
+   appended to the roots). *)
+Fixpoint run_ops (ct : ctable) (s : state) (roots : list val) (ops : list (op * option nat))
+  : state * list val :=
+  match ops with
+  | [] => (s, roots)
+  | (o, fa) :: t =>
+      let '(r, s') := step ct roots o (mkst (heap s) 0 fa) in
+      run_ops ct s' (roots ++ [match r with Ok v => v | Err _ => VNone end]) t
+  end.
+
+Section Isolation.
+  Variable ct : ctable.
+  Hypothesis no_dnc : forall c k, lookup_cls ct c = Some k -> c_dnc k = false.
+  Hypothesis wf_owner : forall c k, lookup_cls ct c = Some k -> c_owner k = c.
+  Hypothesis Hscalar : scalar_table ct.
+  Variable nd : nat.                 (* the class-level default objects are the cells below nd *)
+  Variable h0 : list obj.
+  (* the class-level default objects are plain collections *)
+  Hypothesis h0_plain : forall l c d, l < nd -> nth_error h0 l <> Some (OInst c d).
+
+  Definition NoA : loc -> Prop := fun _ => False.
+  Local Notation okV := (okv nd NoA).
+
+  Lemma NoA_closed : A_closed nd NoA h0.
+  Proof. intros l o []. Qed.
+  Lemma NoA_dnc : dnc_allowed ct nd NoA h0.
+  Proof. intros l c d k a sp x Hl Hn. exfalso. eapply h0_plain; eauto. Qed.
+  Lemma NoA_okv_fresh v : okV v -> freshv nd v.
+  Proof. destruct v; simpl; auto. intros [H|[]]; exact H. Qed.
+
+  (* operations covered: every receiver is a root created by the history (index
+     >= nd), argument references point above nd, no attribute-transform keywords,
+     update_/transform_<attr> only copy-on-write and on attributes that are not
+     do_not_copy; in place: assignment, deletion, with_<attr>, reset_<attr>,
+     reset, update, transform (see inplace_form) *)
+  Definition hist_op_ok (o : op) : Prop :=
+    match o with
+    | OpConstruct c pos kw => kwok ct nd NoA kw /\ match pos with Some v => okV v | None => True end
+    | OpSetAttr x a v => nd <= x /\ okV v
+    | OpDelAttr x a => nd <= x
+    | OpHelper x hp h =>
+        nd <= x /\ Forall okV (h_pos h) /\ okV (h_index h) /\ oattrs_ok nd NoA (h_kw h) /\
+        h_kwfn h = [] /\ ofn_scalar (h_fn h) /\
+        (h_inplace h = true -> inplace_form hp) /\
+        match hp with
+        | HTransformTop => match h_fn h with Some f => is_appended f = false | None => True end
+        | HUpdate a | HTransform a => dncname ct a = false
+        | _ => True
+        end
+    | OpDeepCopy x => True
+    | OpAlloc ob => obj_ok nd NoA ob
+    end.
+
+  Definition roots_ok (roots : list val) : Prop := forall x, nd <= x -> freshv nd (nth x roots VNone).
+
+  Lemma roots_ok_snoc roots v : nd <= length roots -> roots_ok roots -> freshv nd v -> roots_ok (roots ++ [v]).
+  Proof.
+    intros Hlen H Hv x Hx. destruct (Nat.lt_ge_cases x (length roots)) as [Hlt|Hge].
+    - rewrite app_nth1 by exact Hlt. auto.
+    - rewrite app_nth2 by exact Hge. destruct (x - length roots) as [|n]; simpl; auto. destruct n; exact I.
+  Qed.
+
+  Lemma hist_op_sound roots o : roots_ok roots -> hist_op_ok o -> op_ok ct nd NoA roots o.
+  Proof.
+    intros Hr. destruct o; simpl; auto.
+    - intros [H1 H2]. split; auto.
+    - intros (Hx & Hpos & Hidx & Hkw & Hkwfn & Hfn & Hinp & Hform). split.
+      + split; [exact Hpos|]. split; [exact Hidx|]. split; [exact Hkw|].
+        split; [rewrite Hkwfn; apply ats_ok_nil|now apply ofn_scalar_ok].
+      + intros l Hl. split.
+        * intro Ei. specialize (Hr x Hx). rewrite Hl in Hr. simpl in Hr.
+          split; [exact Hr|]. split; [auto|]. eapply Forall_impl; [|exact Hpos]. apply NoA_okv_fresh.
+        * destruct hp; auto.
+  Qed.
+
+  Theorem defaults_isolated ops : forall s roots,
+    sinv nd NoA h0 s -> nd <= length roots -> roots_ok roots ->
+    Forall (fun p => hist_op_ok (fst p)) ops ->
+    sinv nd NoA h0 (fst (run_ops ct s roots ops)).
+  Proof.
+    induction ops as [|[o fa] t IH]; intros s roots Hs Hlen Hr Hops; simpl; [exact Hs|].
+    inversion Hops as [|? ? Ho Ht]; subst. simpl in Ho.
+    assert (Hs0 : sinv nd NoA h0 (mkst (heap s) 0 fa)) by exact Hs.
+    destruct (step_sep ct no_dnc wf_owner nd NoA h0 NoA_closed (scalar_table_ok ct nd NoA Hscalar) NoA_dnc
+                roots o (hist_op_sound roots o Hr Ho) _ Hs0) as [Hs' Hq].
+    destruct (step ct roots o (mkst (heap s) 0 fa)) as [r s'] eqn:E. simpl in Hs', Hq.
+    apply IH; auto.
+    - rewrite app_length. lia.
+    - apply roots_ok_snoc; auto. destruct r as [v|e]; [|exact I].
+      destruct o; simpl in Hq; try (apply NoA_okv_fresh; exact Hq).
+      destruct Hq as [Hq| ->]; [apply NoA_okv_fresh; exact Hq|]. apply Hr. apply Ho.
+  Qed.
+End Isolation.
